@@ -31,6 +31,8 @@ type outcome struct {
 	tags   []string
 	trace  []string
 	height uint64
+	// ingress level: the node was stopped while events were queued in front of the sync loop (they are lost)
+	lostQueued bool
 }
 
 func fullParams(pc *world.ProducerChain, root string) world.Params {
